@@ -44,3 +44,61 @@ Theorem C14_quantile_within_bounds :
   quantile QA s q = ANum x -> mn <= x <= mx.
 Proof. exact quantile_bounded. Qed.
 Print Assumptions C14_quantile_within_bounds.
+
+(* count_at is monotone and bounded on {min} U (first centre, max], with 0 at the minimum and the
+   total at the maximum.  Query points with min < x <= first centre are excluded: that is the
+   left branch, known finding F-C14-1 (refuted below). *)
+Theorem C14_count_at_monotone_bounded_partial :
+  forall (s : @st Q) mn mx v0 f0 t x y,
+  Inv s -> hmin s = Some mn -> hmax s = Some mx -> bins s = (v0, f0) :: t -> mn < mx ->
+  (x == mn \/ (v0 < x /\ x <= mx)) -> (y == mn \/ (v0 < y /\ y <= mx)) -> x <= y ->
+  exists a b, aval (count_at QA s x) = Some a /\ aval (count_at QA s y) = Some b /\
+              0 <= a /\ a <= b /\ b <= sumq (bins s).
+Proof. exact count_at_monotone_partial. Qed.
+Print Assumptions C14_count_at_monotone_bounded_partial.
+
+(* F-C14-1: on bins (150,3) (350,2) (1000,1) with minimum 100 the left branch answers 30 at
+   x = 120 although only 6 values were inserted, and it is larger than the answer at 200. *)
+Theorem C14_count_at_left_refuted :
+  exists (s : @st Q) x y a b,
+    Inv s /\ x <= y /\ aval (count_at QA s x) = Some a /\ aval (count_at QA s y) = Some b /\
+    sumq (bins s) < a /\ b < a.
+Proof.
+  exists (mkst [(150 # 1, 3%Z); (350 # 1, 2%Z); (1000 # 1, 1%Z)] (Some (100 # 1)) (Some (1000 # 1)) None Inf 3%nat).
+  exists (120 # 1), (200 # 1). eexists. eexists.
+  split.
+  { unfold Inv; cbn [bins cap hmin hmax diffs min_diff]. repeat split.
+    - repeat constructor; unfold C13_lists.blt; cbn; reflexivity.
+    - repeat constructor; cbn; discriminate.
+    - cbn; repeat constructor.
+    - repeat constructor.
+    - unfold bounds_ok; cbn [bins hmin hmax]. exists (100 # 1), (1000 # 1). repeat split.
+      repeat constructor; cbn; discriminate. }
+  split; [discriminate|]. split; [vm_compute; reflexivity|]. split; [vm_compute; reflexivity|].
+  split; vm_compute; reflexivity.
+Qed.
+Print Assumptions C14_count_at_left_refuted.
+
+Theorem C14_quantile_zero_is_min :
+  forall (s : @st Q) mn mx,
+  Inv s -> bins s <> [] -> hmin s = Some mn -> hmax s = Some mx -> mn <= mx ->
+  exists x, quantile QA s 0 = ANum x /\ x == mn.
+Proof. exact quantile_at_zero. Qed.
+Print Assumptions C14_quantile_zero_is_min.
+
+Theorem C14_quantile_one_is_max :
+  forall (s : @st Q) mn mx,
+  Inv s -> bins s <> [] -> hmin s = Some mn -> hmax s = Some mx -> mn <= mx ->
+  quantile QA s 1 = ANum mx.
+Proof. exact quantile_at_one. Qed.
+Print Assumptions C14_quantile_one_is_max.
+
+(* profile estimates: below + above is the number of non-null values wherever below is defined *)
+Theorem C14_below_plus_above :
+  forall (nonnull : Q) (s : @st Q) x b,
+  aval (count_at QA s x) = Some b -> exists a, est_above nonnull s x = Some a /\ b + a == nonnull.
+Proof. exact below_above_sum. Qed.
+Print Assumptions C14_below_plus_above.
+
+(* NOT proved: monotonicity of quantile in its argument (exact arithmetic); it is checked on every
+   histogram the differential run reaches, by the oracle, up to the ulp guard of F-C14-3. *)
